@@ -91,6 +91,18 @@ Theorem C14_auth_read_parks : forall q s chunk body i dg tailb, healthy s q -> c
 Proof. exact (data_auth_parks store). Qed.
 End C14b.
 
+(* ---- the same for the code as TRANSLATED from the Python source on every run (harness/pytrans3.py -> BrokerGen.v):
+   run_src is the event loop with the translated Server.subscribe/unsubscribe/publish and Connection.on_publish/
+   on_subscribe/on_unsubscribe/authenticate/connection_lost/message_received plugged in; BrokerGenRun.run_src_eq proves it
+   equal to the model.  These theorems rely on functional_extensionality_dep (Coq standard library) and nothing else. *)
+From HP Require Import PyBroker BrokerGen BrokerGenEq BrokerGenRun BrokerGenProps.
+Theorem C14_src_run_is_model : forall bname store async_store h, run_src bname store async_store h = run bname store async_store h.
+Proof. exact run_src_eq. Qed.
+Theorem C14_src_good_always : forall bname store async_store h, Good (srow store) async_store (run_src bname store async_store h).
+Proof. exact src_good. Qed.
+Theorem C14_src_authenticate_is_model : forall pp q i dg l s, Connection_authenticate pp q i dg l s = emb (authenticate (pp q) q i dg l s).
+Proof. exact Connection_authenticate_eq. Qed.
+
 Print Assumptions C14_auth_parks.
 Print Assumptions C14_paused_ignores_data.
 Print Assumptions C14_parked_untouched.
@@ -100,3 +112,6 @@ Print Assumptions C14_good_always.
 Print Assumptions C14_parked_until_verdict.
 Print Assumptions C14_verdict_accepts_parked.
 Print Assumptions C14_auth_read_parks.
+Print Assumptions C14_src_run_is_model.
+Print Assumptions C14_src_good_always.
+Print Assumptions C14_src_authenticate_is_model.
